@@ -313,6 +313,7 @@ func (c *Chain) Project() State {
 		}
 		s.Aliases = append(s.Aliases, PAlias{Key: k, Data: c.Name(m.Data)})
 	}
+	sort.SliceStable(s.Aliases, func(i, j int) bool { return dataRank(s.Aliases[i].Data) < dataRank(s.Aliases[j].Data) })
 	s.ExpData = []PSchedS{}
 	for _, e := range a.ModelKeeper.GetAllExpiredData(ctx) {
 		s.ExpData = append(s.ExpData, PSchedS{H: int64(e.Height), Ids: c.names_(e.Data)})
@@ -339,6 +340,7 @@ func (c *Chain) Project() State {
 	for _, p := range a.DidKeeper.GetAllPaymentAddress(ctx) {
 		s.Pay = append(s.Pay, PPay{Did: c.Name(p.Did), A: c.Name(p.Address)})
 	}
+	sort.SliceStable(s.Pay, func(i, j int) bool { return s.Pay[i].Did < s.Pay[j].Did })
 	s.Kids = []PPay{}
 	for _, k := range a.DidKeeper.GetAllKid(ctx) {
 		s.Kids = append(s.Kids, PPay{Did: c.Name(k.Kid), A: c.Name(k.Address)})
@@ -427,4 +429,14 @@ func (c *Chain) renameAll(s string) string {
 		}
 	}
 	return s
+}
+
+// dataRank orders symbolic data ids D1 < D2 < ... < D10 (unknown ids last).
+func dataRank(d string) int {
+	if len(d) >= 2 && d[0] == 'D' && isDigits(d[1:]) {
+		n := 0
+		fmt.Sscan(d[1:], &n)
+		return n
+	}
+	return 1 << 30
 }
